@@ -83,6 +83,14 @@ def system_case(draw, tier):
     for nm in with_end[:1]:
         if nm not in seq:
             seq[draw(st.integers(0, L - 1))] = nm
+    if draw(st.booleans()):
+        # make the interesting shape likely: two mapped species interleaved, a loaded-but-unmapped one between them
+        if len(with_end) < 2:
+            with_end = list(with_end) + [nm for nm in names if nm not in with_end][:1]
+        a, b = with_end[0], with_end[1]
+        skipped = "XTRA" if len(with_end) == len(names) else [nm for nm in names if nm not in with_end][0]
+        at = draw(st.integers(0, len(seq)))
+        seq[at:at] = [a, b, skipped, a, b]
     load = [nm for nm in names if nm in seq]
     if "XTRA" in seq:
         load.append("XTRA")
